@@ -404,6 +404,9 @@ func runC11(p *core.Program, r *core.Report) {
 	chainRules(p, r, "R9", "C03", []string{"C03.R5"}, "import names are valid non-keyword identifiers")
 	// R10: generic instantiations: the package path of a type argument is registered and printed as parsed
 	chainRules(p, r, "R10", "C15", []string{"C15.R4"}, "the rewrite of nested package paths changes a path only to '' or the tracker's name for it")
+	// R11: the type arguments of a generic name are found by the reference parser's splitter: depth counting and byte
+	// offsets (C15.R1)
+	chainRules(p, r, "R11", "C15", []string{"C15.R1"}, "type-argument lists are split at top-level commas by byte offset")
 	// R5 generic receiver names
 	r.Floor("R5", 1)
 	nf := p.FuncByName("pkg/namer", "(*rawNamer).Name")
